@@ -83,6 +83,7 @@ type FuncContract struct {
 	Trusted      bool // body not verified
 	TrustWhy     string
 	Layer1       bool
+	Always       []string          // always SITE: the library call at SITE is made on every path to every return
 	Forwards     string            // forwards SITE: every return hands back exactly the results of the library call at SITE (CALLEE#n)
 	BridgeAlso   []string          // bridge-also: math/big methods a same-name BigInt wrapper may call besides the one of its own name
 	Invs         map[int][]*Clause // loop ordinal -> invariants
@@ -469,7 +470,7 @@ var clauseKW = map[string]bool{
 	"func": true, "requires": true, "ensures": true, "assigns": true, "nilable": true, "fresh": true,
 	"trusted": true, "layer": true, "loop": true, "props": true, "define": true, "lemma": true,
 	"global": true, "outs": true, "operands": true, "defines": true, "hint": true, "pure": true,
-	"allocates": true, "sample": true, "reads": true, "posthint": true, "import": true, "unreachable": true, "exported": true, "axiom": true, "local": true, "reveal": true, "assert": true, "using": true, "delegates": true, "bridge-also": true, "ghost": true, "forwards": true,
+	"allocates": true, "sample": true, "reads": true, "posthint": true, "import": true, "unreachable": true, "exported": true, "axiom": true, "local": true, "reveal": true, "assert": true, "using": true, "delegates": true, "bridge-also": true, "ghost": true, "forwards": true, "always": true,
 }
 
 var tagRe = regexp.MustCompile(`^\{([A-Za-z0-9_,\- ]*)\}\s*`)
@@ -686,6 +687,8 @@ func ParseSpecFile(path string) (*Spec, error) {
 				cur.LocalAssume[f[0]] = &Clause{Kind: "local-assume", E: mustExpr(ex, l.no), Src: ex, Name: why}
 			case "forwards":
 				cur.Forwards = strings.TrimSpace(rest)
+			case "always":
+				cur.Always = append(cur.Always, strings.TrimSpace(rest))
 			case "bridge-also":
 				for _, t := range strings.Split(rest, ",") {
 					if t = strings.TrimSpace(t); t != "" {
